@@ -5,6 +5,7 @@ package main
 //   httpdir  <id> <root hex> <name hex>            the path httpDir.Open hands to the source
 //   case <id> bp:<root>(mem) ...                   op sequences; everything outside the root must stay untouched
 import (
+	"regexp"
 	"fmt"
 	"os"
 	"sort"
@@ -361,6 +362,7 @@ func runC08(c *Ctx) {
 		}
 	}
 	c.Extra["exhaustive"] = fmt.Sprintf("every name of length<=%d over {a,b,.,/} x %d roots (RealPath) and x 5 roots (httpDir): %d cases", maxLen, len(roots), k)
+	runC08LstatFallback(c)
 	// (2) op sequences
 	for i := 0; i < n; i++ {
 		r := c.Rng.Fork()
@@ -383,4 +385,49 @@ func runC08(c *Ctx) {
 		}
 	}
 	_ = os.ErrNotExist
+}
+
+// LstatIfPossible through a BasePathFs whose source is NOT an Lstater (RegexpFs, CacheOnReadFs,
+// a plain wrapper): the fallback Stat must use the translated name too (oracle only).  A file of
+// the same name exists outside the root with a different size: describing it is a leak.
+type plainFs struct{ afero.Fs } // hides every optional interface of the wrapped filesystem
+
+func runC08LstatFallback(c *Ctx) {
+	mem := afero.NewMemMapFs()
+	afero.WriteFile(mem, "/base/both.txt", []byte("in"), 0o644)
+	afero.WriteFile(mem, "/both.txt", []byte("outside-content-is-longer"), 0o644)
+	afero.WriteFile(mem, "/secret.txt", []byte(outsideMarker), 0o644)
+	afero.WriteFile(mem, "/base/in/g.txt", []byte("g"), 0o644)
+	n := 0
+	srcs := map[string]afero.Fs{
+		"plain":  plainFs{mem},
+		"regexp": afero.NewRegexpFs(mem, regexp.MustCompile(`.`)),
+		"cache":  afero.NewCacheOnReadFs(mem, afero.NewMemMapFs(), 0),
+		"mem":    mem,
+	}
+	for kind, src := range srcs {
+		bp := afero.NewBasePathFs(src, "/base").(*afero.BasePathFs)
+		for _, name := range []string{"/both.txt", "both.txt", "/secret.txt", "/in/g.txt", "/nope", "/../secret.txt", "/in/../both.txt"} {
+			n++
+			c.Count("lstat-fallback." + kind)
+			fi, _, err := bp.LstatIfPossible(name)
+			st, serr := bp.Stat(name)
+			switch {
+			case (err == nil) != (serr == nil):
+				c.Oracle("FAIL lf%d outside-leaked:LstatIfPossible source=%s name=%q: LstatIfPossible err=%v, Stat err=%v", n, kind, name, err, serr)
+			case err == nil && (fi.Size() != st.Size() || fi.IsDir() != st.IsDir()):
+				c.Oracle("FAIL lf%d outside-leaked:LstatIfPossible source=%s name=%q: LstatIfPossible describes a %d-byte entry, Stat a %d-byte one (the entry of that name OUTSIDE the root has %d bytes)", n, kind, name, fi.Size(), st.Size(), len("outside-content-is-longer"))
+			}
+		}
+		// the same through Walk, which uses LstatIfPossible
+		afero.Walk(bp, "/", func(p string, fi os.FileInfo, err error) error {
+			if err == nil && fi != nil && !fi.IsDir() {
+				if st, e := bp.Stat(p); e == nil && st.Size() != fi.Size() {
+					c.Oracle("FAIL lf-walk outside-leaked:Walk source=%s path=%q: Walk reports %d bytes, Stat %d", kind, p, fi.Size(), st.Size())
+				}
+			}
+			return nil
+		})
+	}
+	c.Extra["lstat_fallback"] = fmt.Sprintf("%d LstatIfPossible calls through BasePathFs over sources with and without Lstat (oracle only)", n)
 }
